@@ -129,7 +129,7 @@ PROPS = {
         streams=[dict(mode="ir", quick=1200, thorough=30000, workers=14, driver_workers=8),
                  dict(mode="cfg", quick=4, thorough=60, workers=8, driver_workers=1, timeout=3000),
                  dict(mode="proj", quick=112, thorough=1100, workers=14, driver_workers=2, timeout=3000, env={"VH_ODD_FIELDS": "1"}),
-                 dict(mode="proj", quick=28, thorough=400, workers=14, driver_workers=2, timeout=3000, env={"VH_TYPES": "1"})],
+                 dict(mode="proj", quick=42, thorough=400, workers=14, driver_workers=2, timeout=3000, env={"VH_TYPES": "1", "VH_TIME_ALIAS": "1"})],
         rule=IR_RULE + "; (fourth stream: type-graph projects - enums over every scalar base with negative, fractional and large members); every emitted document (3.0 and 3.1) is read back into the abstract Doc and the decidable well-formedness checker (proved sound) runs on it: $ref closure, path-template/parameter bijection with required path parameters, parameter names unique per location, responses described, enum members typed, info/servers/securitySchemes = configuration; non-trivial = at least one document emitted; distinct = distinct document",
         trusted_base=COMMON_TB + IR_TB + ["docOfJson (driver): reading the real JSON into Gleece.Doc.Doc", "kin-openapi openapi3.T.Validate and libopenapi-validator are trusted to reject what they reject"],
         partial=["finding C08-F1 (= C11-F2): 3.0 lists the members of a non-string enum component as JSON strings"],
